@@ -531,7 +531,34 @@ def r15_7(ctx):
     ctx.floor('R15.7', 'output allocations in MLMatrix._matvec', n, 2)
 
 
+def r15_8(ctx):
+    """The pattern of two spline spaces is, per level, the set of pairs with overlapping supports: it is produced by the
+    support search compute_sparsity_ij(kv0, kv1) for EVERY level.  A closed form (|i-j| <= p) is that set only for simple
+    interior knots; choosing it for some levels makes the pattern a strict superset as soon as an interior knot repeats."""
+    fk = ctx.prog.func(PY + '.MLStructure.from_kvs')
+    bx = [s for s in own_nodes(fk.node) if isinstance(s, ast.Assign) and src(s.targets[0]) == 'bidx']
+    if not bx:
+        ctx.undecided('R15.8', fk.qual, 'per-level pattern from the support search', fk.node, 'bidx not found')
+    else:
+        v = bx[0].value
+        producers = sorted({call_name(c) for c in ast.walk(v) if isinstance(c, ast.Call) and 'sparsity' in (call_name(c) or '')})
+        cond = [x for x in ast.walk(v) if isinstance(x, ast.IfExp)]
+        if producers == ['compute_sparsity_ij'] and not cond:
+            ctx.expect('R15.8', fk.qual, v, 'tuple(compute_sparsity_ij(kv0, kv1) for (kv0, kv1) in zip(kvs0, kvs1))', bx[0],
+                       'support search for every level, column space first', label='per-level pattern from the support search')
+        elif len(producers) > 1 or cond:
+            ctx.violated('R15.8', fk.qual, 'per-level pattern from the support search', bx[0],
+                         'some levels take their pattern from %s (under `%s`) instead of the support search: a banded / closed-form pattern equals the '
+                         'set of overlapping-support pairs only for simple interior knots, with a repeated knot it contains pairs of disjoint supports'
+                         % ([p for p in producers if p != 'compute_sparsity_ij'] or producers, src(cond[0].test) if cond else '?'))
+        else:
+            ctx.undecided('R15.8', fk.qual, 'per-level pattern from the support search', bx[0], 'producers: %s' % producers)
+    # the orientation bs = (rows: kv1.numdofs, columns: kv0.numdofs)
+    ctx.expect_assign('R15.8', fk, 'bs', 'tuple((kv1.numdofs, kv0.numdofs) for (kv0, kv1) in zip(kvs0, kvs1))', 'block sizes (test space rows, trial space columns)')
+
+
 def run(ctx):
+    r15_8(ctx)
     r15_1(ctx)
     r15_2(ctx)
     r15_3(ctx)
